@@ -120,7 +120,7 @@ def match_finding(findings, prop, function, clause, cfg, detail=""):
     for f in findings:
         if f.get("status", "known") != "known":
             continue
-        if prop not in f["properties"]:
+        if prop is not None and prop not in f["properties"]:
             continue
         ff = f["function"]
         if ff != function and not (ff.endswith("*") and function.startswith(ff[:-1])):
@@ -189,6 +189,34 @@ def main(argv=None):
                 tasks.append((K.name, cfg, facets, tier))
     results = run_tasks(tasks, a.jobs, tier)
 
+    # Modular verification is only as good as the contracts it leans on: a caller is checked against the CONTRACT of a
+    # callee, so the callee's contract is an obligation of the caller's property too.  Close the selection under
+    # "is used as a contract at a call site" (the callees of callees included) and discharge those contracts with
+    # the facets this property generates.
+    via_callee = set()
+    if not a.only:
+        have = {K.name for K, _ in sel}
+        frontier = {s for r in results for s in r.get("stubs", [])} - have
+        rounds = 0
+        while frontier and rounds < 4:
+            rounds += 1
+            ctasks = []
+            for nm in sorted(frontier):
+                K = ct.REGISTRY.get(nm)
+                if K is None:
+                    continue
+                fac = getattr(K, "facets", None) or PR.FACETS[prop]
+                for cfg in K.configs(tier):
+                    ctasks.append((K.name, cfg, fac, tier))
+            via_callee |= frontier
+            have |= frontier
+            cres = run_tasks(ctasks, a.jobs, tier) if ctasks else []
+            for r in cres:
+                r["via_callee"] = True
+            results = list(results) + cres
+            tasks = tasks + ctasks
+            frontier = {s for r in cres for s in r.get("stubs", [])} - have
+
     # A failed frame obligation means the per-call pre-states no longer cover what the API can produce.  Search
     # the pre-states reachable through one earlier call of the same function for a failing input (pyvc/history.py).
     from pyvc import history as HI
@@ -219,6 +247,9 @@ def main(argv=None):
             broken.append("%s %s: %s" % (r["function"], r["cfg"], e.strip().split("\n")[0][:300]))
         for ob in r["obligations"]:
             if prop in PR.clause_props(ct.REGISTRY[r["function"]], ob["name"], r["cfg_raw"]):
+                obligations.append((r["function"], r["cfg_raw"], ob))
+            elif r.get("via_callee") and not ob.get("canary") and ob["name"].split(".")[0] in PR.FACET_OF_LETTER_SET(prop):
+                ob["via_callee"] = True
                 obligations.append((r["function"], r["cfg_raw"], ob))
     # cross-configuration trace equality (C06): same public parameters => same event list
     if prop == "C06":
@@ -274,7 +305,7 @@ def main(argv=None):
         if ob["verdict"] == "proved":
             proved += 1
             continue
-        f = match_finding(findings, prop, fn, ob["name"], cfg, ob.get("detail", ""))
+        f = match_finding(findings, prop if not ob.get("via_callee") else None, fn, ob["name"], cfg, ob.get("detail", ""))
         if f is not None:
             # a listed finding: the clause is known not to hold here (refuted, or not provable)
             known_hits.setdefault(f["id"], [f, 0])[1] += 1
@@ -294,7 +325,7 @@ def main(argv=None):
             print("OPEN %s %s %s :: %s" % (prop, fn, cl, "; ".join("%s=%s" % (c, v) for c, v, m in lst)[:400]))
             print("     model:", json.dumps(lst[0][2])[:300])
     wall = time.time() - t0
-    functions = sorted({K.name for K, _ in sel})
+    functions = sorted({K.name for K, _ in sel} | via_callee)
     stubs = sorted({s for r in results for s in r.get("stubs", [])})
     solver_s = sum(r.get("solver_s", 0.0) for r in results)
     lines = []
@@ -361,6 +392,7 @@ def main(argv=None):
             refuted_new=refuted, unknown=unknown,
             functions_under_contract=functions, n_functions=len(functions),
             callee_contracts_used_at_call_sites=stubs,
+            callee_contracts_discharged_for_this_property=sorted(via_callee),
             configurations=len(tasks), paths=sum(r.get("paths", 0) for r in results),
             discharged_by=by_backend, solver_s=round(solver_s, 2),
             repo_files_sha256_16=file_hashes(),
